@@ -193,12 +193,15 @@ def r3(ctx, prog):
     sites = list(g.calls("mi_free_block_local"))
     ok = bool(sites) and all(block_ok(g, rl.arg(g, c, 1), c) for c in sites)
     ctx.check(R, ok, g.where(), "block = has_aligned ? _mi_page_ptr_unalign(page,p) : p on every path into mi_free_block_local (a full page may also hold aligned blocks)", key="C03.R3:local")
-    h = prog.fn("mi_free_generic_mt")
-    ok = any(rl.var_of(h, rl.arg(h, c, 1)) == h.param_id(2) for c in h.calls("_mi_page_ptr_unalign")) and not any(True for _ in h.calls("mi_page_has_aligned"))
-    ctx.check(R, ok, h.where(), "remote free always un-aligns", key="C03.R3:mt")
-    for c in h.calls("mi_free_block_mt"):
+    mts = [(prog.fn(cn), c) for cn in rl.callers_of(prog, "mi_free_block_mt") for c in prog.fn(cn).calls("mi_free_block_mt")]
+    if not mts:
+        raise AnalysisBroken("C03.R3: no call of mi_free_block_mt")
+    for h, c in mts:
         bv = rl.values_of(h, rl.arg(h, c, 2))
-        ctx.check(R, any(rl.is_call(h, v, "_mi_page_ptr_unalign") for v in bv), h.where(c), "the un-aligned block is what is freed", key="C03.R3:mt:arg")
+        un = [v for v in bv if rl.is_call(h, v, "_mi_page_ptr_unalign")]
+        ok = bool(un) and not any(h.nodes[v]["k"] == "ConditionalOperator" for v in bv) and all(rl.var_of(h, rl.arg(h, v, 1)) in h.pids for v in un)
+        ctx.check(R, ok, h.where(c), "remote free always un-aligns: the block handed to mi_free_block_mt is _mi_page_ptr_unalign(page, p)", key="C03.R3:mt")
+        ctx.check(R, bool(un), h.where(c), "the un-aligned block is what is freed", key="C03.R3:mt:arg")
     u = prog.fn("_mi_usable_size")
     cfg = u.cfg
     for c in u.calls("mi_page_usable_aligned_size_of"):
